@@ -148,12 +148,17 @@ open Nima.Frag
 
 `Model/Cst.lean` (input: concrete-syntax trees with explicit gaps), `Model/FromCst.lean`
 (`NixSourceCode.from_cst`, `AttributeSet.from_cst`, `Binding.from_cst`, `NixList.from_cst`,
-`Parenthesis.from_cst`, `FunctionCall.from_cst`, `parse_delimited_sequence`) and `Model/Rebuild.lean`
-(`rebuild` of the same classes, string level and piece level) model the parse side and the render
-side for files made of attribute sets with plain single-segment names, lists, parenthesised
-expressions `( e )`, function applications `f x` / `f x y` and leaf values, nested to any depth, with
+`Parenthesis.from_cst`, `FunctionCall.from_cst`, `WithStatement.from_cst`, `Assertion.from_cst`,
+`Select.from_cst`, `FunctionDefinition.from_cst`, `UnaryExpression.from_cst`, `BinaryExpression.from_cst`, `parse_delimited_sequence`)
+and `Model/Rebuild.lean` (`rebuild` of the same classes, string level and piece level) model the parse
+side and the render side for files made of attribute sets with plain single-segment names, lists,
+parenthesised expressions `( e )`, function applications `f x` / `f x y`, `with e; body`,
+`assert e; body`, selects `e.a.b` / `e.a or d`, lambdas `x: body`, unary `!e` / `-e`, binary operators `a + b` (not `//` / `++` with the operator on a line of its own) and leaf
+values, nested to any depth, with
 arbitrary whitespace and line / one-line block comments in every gap (inside parentheses and between
-function and argument too). The statements below are about EVERY such tree
+function and argument too; the three gaps of a `with` / `assert` itself — after the keyword and around
+its `;` —, the gaps around the `.` / `or` of a select and around the `:` of a lambda hold whitespace only:
+`Cst.wf`). The statements below are about EVERY such tree
 (structural induction), tied to the implementation by `fragment_correspondence`. -/
 
 /-- The piece list the theorems speak about is the output text, cut into pieces. -/
@@ -240,6 +245,142 @@ def parenSample : File :=
 example : parenSample.flatten = "{ a = f (\n\n    x\n  ) y; }".toList := by decide
 example : parenSample.wf = true ∧ parenSample.noLeadingWs = true := by decide
 example : parenSample.roundtrip = .ok "{\n  a = f (\n\n    x\n  ) y;\n}".toList := by decide
+
+/-- `with a;⏎⏎{ x = with (f b) ; [⏎ c ]; }`: an absorbable body on its own line after a blank line, a
+    `with` as a binding value whose body is a multi-line list -/
+def withSample : File :=
+  { items := .elem []
+      (.kw true [] " ".toList (.leaf .ident "a".toList) [] [] [] "\n\n".toList
+        (.set false [] (.bind " ".toList "x".toList [] " ".toList [] " ".toList
+          (.kw true [] " ".toList (.paren (.elem [] (.app (.leaf .ident "f".toList) [] " ".toList (.leaf .ident "b".toList)) .nil) [])
+            [] " ".toList [] " ".toList
+            (.list (.elem "\n ".toList (.leaf .ident "c".toList) .nil) " ".toList))
+          [] [] .nil) " ".toList)) .nil,
+    endGap := [] }
+
+example : withSample.flatten = "with a;\n\n{ x = with (f b) ; [\n c ]; }".toList := by decide
+example : withSample.wf = true ∧ withSample.noLeadingWs = true := by decide
+example : withSample.codeTokens =
+    ["with", "a", ";", "{", "x", "=", "with", "(", "f", "b", ")", ";", "[", "c", "]", ";", "}"].map String.toList := by decide
+
+/-- `assert⏎  (f a);⏎⏎with e; [ b ]`: a condition on its own line, a blank line in front of the body -/
+def assertSample : File :=
+  { items := .elem []
+      (.kw false [] "\n  ".toList
+        (.paren (.elem [] (.app (.leaf .ident "f".toList) [] " ".toList (.leaf .ident "a".toList)) .nil) [])
+        [] [] [] "\n\n".toList
+        (.kw true [] " ".toList (.leaf .ident "e".toList) [] [] [] " ".toList
+          (.list (.elem " ".toList (.leaf .ident "b".toList) .nil) " ".toList))) .nil,
+    endGap := [] }
+
+example : assertSample.flatten = "assert\n  (f a);\n\nwith e; [ b ]".toList := by decide
+example : assertSample.wf = true ∧ assertSample.noLeadingWs = true := by decide
+example : assertSample.codeTokens =
+    ["assert", "(", "f", "a", ")", ";", "with", "e", ";", "[", "b", "]"].map String.toList := by decide
+
+/-- `f (g x).a.b⏎  ."c d" {}.y`: selects on a parenthesised call and on a set, `.` on its own line -/
+def selectSample : File :=
+  { items := .elem []
+      (.app (.app (.leaf .ident "f".toList) [] " ".toList
+          (.sel (.sel (.paren (.elem [] (.app (.leaf .ident "g".toList) [] " ".toList (.leaf .ident "x".toList)) .nil) [])
+              [] [] [] ["a".toList, "b".toList]) [] "\n  ".toList [] ["\"c d\"".toList]))
+        [] " ".toList (.sel (.set false [] .nil []) [] [] [] ["y".toList])) .nil,
+    endGap := [] }
+
+example : selectSample.flatten = "f (g x).a.b\n  .\"c d\" {}.y".toList := by decide
+example : selectSample.wf = true ∧ selectSample.noLeadingWs = true := by decide
+example : selectSample.codeTokens =
+    ["f", "(", "g", "x", ")", ".", "a", ".", "b", ".", "\"c d\"", "{", "}", ".", "y"].map String.toList := by decide
+example : selectSample.roundtrip = .ok "f (g x).a.b\n  .\"c d\" { }.y".toList := by decide
+
+/-- `[ a.b or c (f x).y⏎    or { } ]`: selects with defaults as list elements, `or` on its own line -/
+def selectOrSample : File :=
+  { items := .elem []
+      (.list (.elem " ".toList (.selOr (.leaf .ident "a".toList) [] [] [] ["b".toList] [] " ".toList " ".toList
+            (.leaf .ident "c".toList))
+          (.elem " ".toList (.selOr (.paren (.elem [] (.app (.leaf .ident "f".toList) [] " ".toList (.leaf .ident "x".toList)) .nil) [])
+            [] [] [] ["y".toList] [] "\n    ".toList " ".toList (.set false [] .nil " ".toList)) .nil)) " ".toList) .nil,
+    endGap := [] }
+
+example : selectOrSample.flatten = "[ a.b or c (f x).y\n    or { } ]".toList := by decide
+example : selectOrSample.wf = true ∧ selectOrSample.noLeadingWs = true := by decide
+example : selectOrSample.codeTokens =
+    ["[", "a", ".", "b", "or", "c", "(", "f", "x", ")", ".", "y", "or", "{", "}", "]"].map String.toList := by decide
+
+/-- `self : super:⏎⏎⏎  { a = x: x.b; }`: curried lambdas, two blank lines in front of the body, a lambda
+    as a binding value -/
+def lambdaSample : File :=
+  { items := .elem []
+      (.lam "self".toList [] " ".toList [] " ".toList
+        (.lam "super".toList [] [] [] "\n\n\n  ".toList
+          (.set false [] (.bind " ".toList "a".toList [] " ".toList [] " ".toList
+            (.lam "x".toList [] [] [] " ".toList (.sel (.leaf .ident "x".toList) [] [] [] ["b".toList])) [] [] .nil)
+            " ".toList))) .nil,
+    endGap := [] }
+
+example : lambdaSample.flatten = "self : super:\n\n\n  { a = x: x.b; }".toList := by decide
+example : lambdaSample.wf = true ∧ lambdaSample.noLeadingWs = true := by decide
+example : lambdaSample.codeTokens =
+    ["self", ":", "super", ":", "{", "a", "=", "x", ":", "x", ".", "b", ";", "}"].map String.toList := by decide
+example : lambdaSample.roundtrip = .ok "self: super:\n\n\n{ a = x: x.b; }".toList := by decide
+
+/-- `assert !f x; -⏎  (a.b)`: unary operators over a call and over a parenthesised select -/
+def unarySample : File :=
+  { items := .elem []
+      (.kw false [] " ".toList (.un ['!'] [] [] (.app (.leaf .ident "f".toList) [] " ".toList (.leaf .ident "x".toList)))
+        [] [] [] " ".toList
+        (.un ['-'] [] "\n  ".toList (.paren (.elem [] (.sel (.leaf .ident "a".toList) [] [] [] ["b".toList]) .nil) []))) .nil,
+    endGap := [] }
+
+example : unarySample.flatten = "assert !f x; -\n  (a.b)".toList := by decide
+example : unarySample.wf = true ∧ unarySample.noLeadingWs = true := by decide
+example : unarySample.codeTokens =
+    ["assert", "!", "f", "x", ";", "-", "(", "a", ".", "b", ")"].map String.toList := by decide
+
+/-- `a // b //⏎  { } ++ [ ]⏎  == !c`: operators of several kinds, the right operand / the operator on a new line -/
+def binarySample : File :=
+  { items := .elem []
+      (.bin (.bin (.leaf .ident "a".toList) [] " ".toList "//".toList [] " ".toList
+          (.bin (.leaf .ident "b".toList) [] " ".toList "//".toList [] "\n  ".toList
+            (.bin (.set false [] .nil " ".toList) [] " ".toList "++".toList [] " ".toList (.list .nil " ".toList))))
+        [] "\n  ".toList "==".toList [] " ".toList (.un ['!'] [] [] (.leaf .ident "c".toList))) .nil,
+    endGap := [] }
+
+example : binarySample.flatten = "a // b //\n  { } ++ [ ]\n  == !c".toList := by decide
+example : binarySample.wf = true ∧ binarySample.noLeadingWs = true := by decide
+example : binarySample.codeTokens =
+    ["a", "//", "b", "//", "{", "}", "++", "[", "]", "==", "!", "c"].map String.toList := by decide
+
+/-- full statement (false): the text the round trip writes determines the code tokens of the tree it was
+    written from — i.e. re-lexing the output gives the tokens back (the theorems above speak about the
+    PIECES of the output, not about the lexer's reading of their concatenation) -/
+def frag_output_determines_tokens_full : Prop :=
+  ∀ (f1 f2 : File), f1.wf = true → f2.wf = true → f1.noLeadingWs = true → f2.noLeadingWs = true →
+    f1.roundtrip = f2.roundtrip → f1.codeTokens = f2.codeTokens
+
+/-- `- ./p.nix` -/
+def minusPathFile : File :=
+  { items := .elem [] (.un "-".toList [] " ".toList (.leaf .path "./p.nix".toList)) .nil, endGap := "\n".toList }
+/-- `-./p.nix`: one path token -/
+def fusedPathFile : File :=
+  { items := .elem [] (.leaf .path "-./p.nix".toList) .nil, endGap := "\n".toList }
+
+/-- NEW FINDING `C01-fragment-unary-minus-path-fused`: `UnaryExpression.rebuild` (expressions/unary.py) writes
+    the operator directly in front of an operand that follows it on the same line; for `-` in front of a
+    path literal that does not start with `<` the two tokens `-`, `./p.nix` become the ONE path token
+    `-./p.nix` (`- ./p.nix` -> `-./p.nix`; Nix's path syntax allows `-` in a path component): the
+    unary minus disappears from the program. The pieces of the output are still `-` and `./p.nix`
+    (`frag_tokens_preserved`), but two different trees of the fragment are written as the same text.
+    Decidable exclusion where the output is re-read: `Cst.fusesMinus` in `Cst.cf` (C06). -/
+theorem cex_unary_minus_path_fused : ¬ frag_output_determines_tokens_full := by
+  intro h
+  have := h minusPathFile fusedPathFile (by decide) (by decide) (by decide) (by decide) (by decide)
+  revert this; decide
+
+example : minusPathFile.flatten = "- ./p.nix\n".toList := by decide
+example : minusPathFile.roundtrip = .ok "-./p.nix\n".toList := by decide
+example : fusedPathFile.roundtrip = .ok "-./p.nix\n".toList := by decide
+example : minusPathFile.items.cf = false ∧ fusedPathFile.items.cf = true := by decide
 
 end Fragment
 
